@@ -263,7 +263,13 @@ def _emit_access_log(
         }
         if cancelled:
             extra["cancelled"] = True
-        if error_message:
+        if status == "error":
+            # Every failure carries a non-empty error_message (the schema
+            # requires it).  An exception whose str() is empty -- e.g.
+            # ``ValueError("")`` -- still failed, so fall back to its class
+            # name rather than dropping the field.
+            extra["error_message"] = error_message or error_type or "error"
+        elif error_message:
             extra["error_message"] = error_message
         if server_version:
             extra["server_version"] = server_version
